@@ -18,7 +18,7 @@ impl Engine for TSet {
     }
     fn nontrivial_rule(&self) -> &'static str {
         "a case is one task set of 1-6 sub-tasks and a sequence over wake(i) / take(countdown) (the scheduled indices are \
-         drained in iteration order) / has_scheduled; non-trivial = a take yielded at least two indices or a countdown \
+         drained in iteration order) / discard_scheduled / has_scheduled; non-trivial = a take yielded at least two indices or a countdown \
          reached zero; distinct by hash"
     }
     fn default_cases(&self, tier: Tier) -> usize {
@@ -33,7 +33,7 @@ impl Engine for TSet {
             Tier::Quick => 5usize,
             Tier::Thorough => 7usize,
         };
-        let alphabet = ["wake 0", "wake 1", "wake 2", "take 0", "take 1", "take 2"];
+        let alphabet = ["wake 0", "wake 1", "wake 2", "take 0", "take 1", "take 2", "discard"];
         let mut out = Vec::new();
         fn rec(alphabet: &[&str], cur: &mut Vec<usize>, maxlen: usize, out: &mut Vec<Case>) {
             if !cur.is_empty() {
@@ -62,9 +62,10 @@ impl Engine for TSet {
         let len = rng.range(3, if tier == Tier::Quick { 40 } else { 150 });
         let mut lines = vec![format!("case tset {n}")];
         for _ in 0..len {
-            match rng.weighted(&[6, 3, 1]) {
+            match rng.weighted(&[6, 3, 1, 1]) {
                 0 => lines.push(format!("wake {}", rng.below(n))),
                 1 => lines.push(format!("take {}", rng.below(4))),
+                2 => lines.push("discard".into()),
                 _ => lines.push("has".into()),
             }
         }
@@ -113,6 +114,11 @@ impl Engine for TSet {
                         None => format!("none n={}", t.notifications()),
                         Some(v) => format!("some {} n={}", v.iter().map(|x| x.to_string()).collect::<Vec<_>>().join(","), t.notifications()),
                     }
+                }
+                (["discard"], Some(t)) => {
+                    t.discard();
+                    woken.clear();
+                    format!("- has={}", t.has_scheduled())
                 }
                 (["has"], Some(t)) => format!("{}", t.has_scheduled()),
                 _ => "bad-op".into(),
